@@ -131,7 +131,7 @@ def probe_mount_paths(g, case, findings):
         if cp == () or m.get('nested'): continue      # see notes/C07.md: mounts below a mount point are unsupported by the Vfs
         cur = ROOT_INO; ok = True
         for k, comp in enumerate(cp):
-            st, o = g.request('lookup', cur, name=('norm', comp))
+            st, o = g.request('lookup', cur, name=name_of_key(comp))
             last = k == len(cp) - 1
             if o['status'] != 'ok':
                 findings.append(mkf(case, 'walking to mount path %s: lookup of component %d failed: %s' % (m['path']['s'], k, o['raw']), kind='crossing-walk-failed')); ok = False; break
@@ -295,6 +295,61 @@ def sc_refused_umount(sess, rng, tb, findings, rm):
     if not c.dead: probe_mount_paths(g, c, findings)
     return c
 
+ODD_VARIANTS = [(k, i) for i in (1, 10, 100, 1000) for k in ('norm', 'up', 'hid', 'hid2')] + [('dots',), ('empty',), ('norm', 0), ('norm', 2), ('up', 2)]
+def sc_names(sess, rng, tb, findings):
+    """names that differ from a mount path component, from "." and from ".." only by case, by a prefix or by a suffix (n1 / n10 /
+    n100 / N1 / .n1 / ..n1 / ... / the empty name): mount paths made of them are distinct directories; a lookup crosses into a
+    mount exactly under the mount's own name; every other variant is ENOENT; such names are forwarded to backends like any other"""
+    c = new_case(sess, rng, tb, rm=0, no_open=0, no_opendir=0); g = HistoryGen(c, rng)
+    paths = [[('N', 1)], [('N', 10)], [('N', 100), ('N', 1)], [('U', 1)], [('H', 1)], [('H2', 1), ('N', 2)], [('D3',), ('N', 1)], [('N', 100), ('U', 10)]]
+    seen = {}
+    for j, comps in enumerate(paths):
+        if c.dead: return c
+        st, o = g.mount(path=mk_path(rng, comps, noise=False), map=None, ans=okmount(rng, 3 + 2 * j))
+        if o['status'] != 'ok': continue
+        cp = canon(comps)
+        for cp2, pino2 in seen.items():
+            if cp2 != cp and pino2 == o['pino']:
+                findings.append(mkf(c, 'mount path %s got the pseudo directory %d of the different path %s' % (st['path']['s'], o['pino'], '/'.join(name_tok(name_of_key(k)) for k in cp2)), kind='mount-path-confused'))
+        seen[cp] = o['pino']
+    if not c.dead: probe_mount_paths(g, c, findings)
+    # the namespace the caller created: every prefix of a mount path is a directory
+    dirs = {(): ROOT_INO}; children = {}
+    for cp in sorted(seen, key=len):
+        for n in range(1, len(cp) + 1): children.setdefault(cp[:n - 1], set()).add(cp[n - 1])
+    for d in sorted(children, key=len):
+        if c.dead: return c
+        if d not in dirs: continue
+        for k in sorted(children[d]):
+            st, o = g.request('lookup', dirs[d], name=name_of_key(k))
+            if o['status'] == 'ok' and decode(o['vals'][0])[0] == 0: dirs[d + (k,)] = o['vals'][0]
+    for d in sorted(dirs, key=len):
+        for nm in ODD_VARIANTS + [('dot',), ('dotdot',)]:
+            if c.dead: return c
+            key = odd_key(nm) if nm[0] in ODD_NAMES else (nm[1] if nm[0] == 'norm' else None)
+            st, o = g.request('lookup', dirs[d], name=nm)
+            if key is not None and key not in children.get(d, ()) and o['status'] == 'ok':
+                findings.append(mkf(c, 'lookup of "%s" in pseudo directory /%s succeeded (inode %#x) although no directory or mount of that name exists there' % (
+                    '' if nm[0] == 'empty' else name_tok(nm), '/'.join(name_tok(name_of_key(k)) for k in d), o['vals'][0]), kind='name-confused'))
+    # the same names as arguments of every forwarded method on a backend inode: delivered, not refused by the Vfs
+    m0 = [m for m in c.mounts.values()][:1]
+    for m in m0:
+        x = (m['idx'] << 56) | m['root']
+        for nm in [('up', 1), ('hid', 1), ('hid2', 1), ('dots',), ('empty',), ('norm', 10)]:
+            for op in ['lookup'] + [o_ for o_ in tb.fwd if o_ in tb.validating] + ['rename', 'link']:
+                if c.dead: return c
+                e = {'ino': 21, 'stino': 21, 'uid': 0, 'gid': 0, 'tag': 4}
+                st, o = g.request(op, x, ino2=x, name=nm, name2=nm, mode='s', ans=mk_ans(ent=e, tag=3))
+                if not o['events']:
+                    findings.append(mkf(c, '%s with the ordinary name "%s" on an inode of backend %d was not delivered: %s' % (op, '' if nm[0] == 'empty' else name_tok(nm), m['bid'], o['raw'][:60]), kind='name-refused', op=op))
+        # the link target of SYMLINK is data, not a path component: "..", "." and targets with slashes are delivered
+        for nm2 in [('dotdot',), ('dot',), ('slash', 1), ('hid2', 1), ('empty',)]:
+            if c.dead: return c
+            st, o = g.request('symlink', x, name=('norm', 3), name2=nm2, mode='s', ans=mk_ans(ent={'ino': 22, 'stino': 22, 'uid': 0, 'gid': 0, 'tag': 4}))
+            if not o['events']:
+                findings.append(mkf(c, 'symlink n3 -> "%s" on an inode of backend %d was not delivered: %s' % ('' if nm2[0] == 'empty' else name_tok(nm2), m['bid'], o['raw'][:60]), kind='name-refused', op='symlink-target'))
+    return c
+
 def async_block(g, tb, targets, ids=(0, 0)):
     """each of the ten async operations (ready and pending-once futures) on each target inode"""
     for x in targets:
@@ -324,6 +379,7 @@ def gen_cases(sess, rng, tb, tier, findings):
     if not os.environ.get('VFS_NO_ASYNC'): cases.append(sc_async(sess, rng, tb, findings))
     if not os.environ.get('VFS_NO_DET'):
         cases.append(sc_refused_umount(sess, rng, tb, findings, 1)); cases.append(sc_refused_umount(sess, rng, tb, findings, 0))
+        if not os.environ.get('VFS_AUDIT6_OFF'): cases.append(sc_names(sess, rng, tb, findings))
     q = tier == 'quick'
     for _ in range(40 if q else 300): cases.append(sc_random(sess, rng, tb, findings, rng.randrange(10, 60)))
     for _ in range(2 if q else 12): cases.append(sc_wrap(sess, rng, tb, findings, rng.choice([270, 300, 520])))
@@ -358,7 +414,9 @@ def run_check(tier, seed):
         ev.cov['translator_assumed_shapes'] = [m['name'] + ': ' + m['vfs']['shape'] for m in t['methods'] if m['vfs'] and str(m['vfs'].get('shape', '')).startswith('assumed')]
     except vfs_src.TranslateError as ex:
         broken.append({'kind': 'translator', 'item': 'props/vfs_src.py', 'error': str(ex)})
+    import pure_tie; pure_tie.prepare(PROP, ev, broken)      # Gen/RustPure.v from the function bodies in REPO (PROP_src_* theorems)
     audit = std_audit(ev, PROP, broken)
+    pure_tie.after_audit(PROP, broken)                         # a source tie broke: look for a concrete differing input
     okm, outm = coq_make(['Model/VfsRun.vo'])          # the executable history runner used by the tie
     if not okm:
         es = coq_error_site(outm)
